@@ -66,6 +66,15 @@ async def inject(cmd: Any, point: str, where: str = "pre") -> None:
     if how == "ExpUds":
         raise UDSException(TesterPresentRequest(suppress_response=False), "injected by C15")
     if how == "Unexpected":
+        if sp.get("flavour") == "chained":
+            # an unexpected exception raised while an expected one is being handled / chained to it explicitly:
+            # still an unexpected exception
+            try:
+                raise ConnectionError("handled by the command itself")
+            except ConnectionError as e:
+                if int(sp.get("n", 0)) % 2:
+                    raise RuntimeError("injected by C15") from e
+                raise RuntimeError("injected by C15 (while handling)")  # noqa: B904
         raise RuntimeError("injected by C15")
     if how == "KbdInt":
         raise KeyboardInterrupt
